@@ -135,6 +135,8 @@ def regenerate(ctx, H):
     for g in gens:
         mod = importlib.import_module(g)
         try:
+            if os.environ.get('VERIF_FORCE_GEN_FAIL'):     # development aid: exercise the translator-broken path of a harness
+                raise RuntimeError('translator failure forced by VERIF_FORCE_GEN_FAIL')
             files, meta = mod.generate(ctx.repo)
             with coq.Lock():
                 gencommon.write_generated(files)
